@@ -5,6 +5,7 @@ from lib.vals import *
 from checks.c03 import tree_tags, value_features, cb
 
 THEOREMS = ["C12_at_most_ten", "C12_at_least_one_except_known", "C12_safeParse_reports_between_1_and_10_except_known",
+            "C12_errors_point_into_the_input_except_known", "C12_refuted_index_key_received",
             "C12_refuted_no_error", "C12_refuted_report_throws", "C12_nonvacuous"]
 IMPORTS = "From Beff Require Import Model.Cases Model.RuntimeSpec."
 
